@@ -32,6 +32,10 @@ def make_frame(dim: int, three: bool, params: dict):
         p4 = (L * 0.9, L * 0.2)
         lines.append(Line(p2, p4, L / 3))
         pts.append(p4)
+    if three and params.get("four"):
+        p5 = (-L * 0.7, L * 1.3)
+        lines.append(Line(p2, p5, L / 3))
+        pts.append(p5)
     beams = [Models.Beam.Isotropic(dim, ln, section, params["E"], params["v"]) for ln in lines]
     mesh = mesher.Mesh_Beams(beams=beams, elemType=ElemType(params["elemType"]))
     return mesh, beams, pts
@@ -54,11 +58,12 @@ class BcWorld(World):
         cfg = {"actor": actor, "nops": int(rng.integers(6, 21)), "faults": bool(faults)}
         if actor == "Beam":
             cfg["dim"] = int(rng.integers(2, 4))
-            cfg["three"] = bool(rng.random() < 0.3)
+            cfg["three"] = bool(rng.random() < 0.45)
             cfg["timoshenko"] = bool(rng.random() < 0.3)
             cfg["params"] = {"b": float(np.round(rng.uniform(0.5, 2), 2)), "h": float(np.round(rng.uniform(0.5, 2), 2)), "L": float(np.round(rng.uniform(5, 20), 1)),
                              "E": float(np.round(10 ** rng.uniform(2, 4), 2)), "v": float(np.round(rng.uniform(0.1, 0.4), 2)),
                              "elemType": ["SEG2", "SEG3"][int(rng.integers(2))]}
+            cfg["params"]["four"] = bool(cfg["three"] and rng.random() < 0.6)  # four members meeting at the joint
             return cfg
         dim = 3 if (actor in ("Elastic", "Thermal") and rng.random() < 0.2) else 2
         maxNn = 30 if actor == "HyperElastic" else (40 if tier == "quick" else 70)
@@ -176,6 +181,7 @@ class BcWorld(World):
             op["aseed"] = int(rng.integers(1 << 30))
         elif name == "connection":
             op["kind"] = ["fixed", "hinged"][int(rng.integers(2))]
+            op["pseed"] = int(rng.integers(1 << 30))
         elif name == "solve":
             op["_mut"] = True
             if self.cfg.get("faults") and frng.random() < 0.3:
@@ -235,6 +241,7 @@ class BcWorld(World):
             with ctx.sut():
                 sim.Bc_Init()
             self.dir_dofs, self.dir_vals, self.n_lagrange = [], [], 0
+            self.conn = []
             return "ok"
 
         if name == "backend":
@@ -321,13 +328,19 @@ class BcWorld(World):
             if any((n * nd + c) in set(self.dir_dofs) for n in nodes for c in range(nd)):
                 return "skip"
             before = len(sim.Bc_Lagrange)
+            # pairwise, as the examples do for a joint -- the pairs of a spanning tree of the coincident nodes, entered
+            # in a seeded order (a chain, a star, or two pairs first and the pair that bridges them last)
+            prng = arr_rng(op.get("pseed", 0), nodes.size)
+            order = prng.permutation(nodes.size)
+            pairs = [(int(nodes[order[k]]), int(nodes[order[int(prng.integers(k))]])) for k in range(1, nodes.size)]
+            pairs = [pairs[i] for i in prng.permutation(len(pairs))]
             with ctx.sut():
-                # pairwise, as the examples do for a joint
-                for a, b in zip(nodes[:-1], nodes[1:]):
+                for a, b in pairs:
                     if op["kind"] == "fixed":
                         sim.add_connection_fixed(np.array([a, b]))
                     else:
                         sim.add_connection_hinged(np.array([a, b]))
+            self.conn = getattr(self, "conn", []) + [(a, b, op["kind"]) for a, b in pairs]
             self.n_lagrange += len(sim.Bc_Lagrange) - before
             ctx.probe("beam_connection_" + op["kind"])
             return "ok"
@@ -527,6 +540,14 @@ class BcWorld(World):
             # constraints through multipliers: satisfied to solver accuracy
             if known.size and not refs.maxabs(u[known] - uD) <= tol_f * uscale + ufloor:
                 raise Violation("constraint-not-held", f"Lagrange path: Dirichlet dofs off by {refs.maxabs(u[known] - uD):.3e} (scale {uscale:.3e}, cond {cond:.2e})")
+            # the connections that were REQUESTED (not merely the conditions the simulation kept): joined nodes share
+            # their translations, and their rotations too when the connection is fixed
+            nd = len(self.un)
+            for a, b, kind in getattr(self, "conn", []):
+                comps = range(nd) if kind == "fixed" else [c for c, nm in enumerate(self.un) if nm in ("x", "y", "z")]
+                gap = max(abs(u[a * nd + c] - u[b * nd + c]) for c in comps)
+                if not gap <= tol_f * uscale + ufloor:
+                    raise Violation("multipoint-constraint-violated", f"{kind} connection requested between nodes {a} and {b}: they move apart by {gap:.3e} (scale {uscale:.3e}, cond {cond:.2e}; the simulation holds {len(info['lag'])} Lagrange conditions)")
             for dofs, coefs, val in info["lag"]:
                 g = float(coefs @ u[dofs] - val)
                 if not abs(g) <= tol_f * max(uscale * refs.maxabs(coefs), abs(val), 1e-300) + ufloor * refs.maxabs(coefs):
